@@ -344,7 +344,7 @@ pub fn run(ctx: &Ctx) {
     ctx.set_rule("keys: primary and subkey secret packets of all zoo algorithms (v4 and v6); (i) locked through set_password_with_s2k with S2kParams::{Cfb x 11 ciphers, Aead x AES x {EAX,OCB,GCM}} x S2K {simple, salted, iterated (counts 0,1,17,30,96,255), argon2 small} x hash x passwords {empty, ASCII, non-UTF-8, UTF-8, 1 KiB}; (ii) locked by the reference (R-crypto + own key-packet encoder) with usage 253, 254, 255 and the legacy cipher octet; oracle: right password (after serialize -> parse) restores exactly the original key packet; wrong passwords (one bit off, prefix, empty, extended) fail; single-bit flips of the protected blob, IV/nonce, S2K parameters, cipher octet, and for AEAD the bound public fields and the packet tag make unlocking fail; emitted usage/cipher/AEAD octets equal the request and wire-locked keys re-emit unchanged; 16-bit-checksum modes may collide with probability 2^-16 (counted as weak_mode_collision, not judged); non-trivial = every locked key; distinct = (key, usage, cipher, s2k shape, password length)");
     ctx.assume("v6 keys with usage 255 / legacy octet must not unlock to different material; whether they are refused outright is not asserted");
     zoo::warm(zoo::ALL_SIGNERS);
-    let n = ctx.tier.pick(3000u64, 100_000);
+    let n = ctx.tier.pick(3000u64, 300_000);
     ctx.group("locked-through-api", Source::Random { n, tape_len: 200 }, api_case);
     ctx.group("locked-by-reference", Source::Random { n, tape_len: 200 }, wire_case);
     let _ = (AeadAlgorithm::Ocb, SymmetricKeyAlgorithm::AES128);
